@@ -158,7 +158,13 @@ class C12(core.PropertyCheck):
         if cat == "asset":
             return self.gen_asset(rng, path)
         if cat == "include":
-            return self.words(rng, rng.randint(1, 5)) + (" :ref:`index-l1`" if rng.random() < 0.3 else "") + ".\n"
+            text = self.words(rng, rng.randint(1, 5)) + (" :ref:`index-l1`" if rng.random() < 0.3 else "") + ".\n"
+            r = rng.random()
+            if r < 0.3:    # an included file that carries an asset of its own (the including page gets it from the include pass)
+                text += "\n.. figure:: /images/a.png\n   :alt: included figure\n"
+            elif r < 0.45:
+                text += "\n.. literalinclude:: /code/sample.py\n   :language: python\n"
+            return text
         name = path.rsplit(".", 1)[0]
         return self.gen_page(rng, name, ctx, toctree=(name == "index"))
 
